@@ -1,9 +1,10 @@
 (* C14: property theorems only; each closed by [exact] and followed by Print Assumptions.
    Models: SimpleEnc.v (simple-font code allocation, ToUnicode omission, reader-side text),
    CidEnc.v (UTF-8 and fixed/identity CID encoders), Widths.v (width tables). *)
-From Coq Require Import List NArith ZArith Bool.
+From Coq Require Import List NArith ZArith Bool QArith Qabs.
 From GoPdf.Base Require Import Bytes.
-From GoPdf.C14 Require Import SimpleEnc CidEnc Widths Encoding SimpleEncProofs TextProofs CidEncProofs WidthsProofs EncodingProofs.
+From GoPdf.C14 Require Import SimpleEnc CidEnc Widths Encoding VMetrics Type3 Utf16.
+From GoPdf.C14 Require Import SimpleEncProofs TextProofs CidEncProofs WidthsProofs EncodingProofs VMetricsProofs RoundTripProofs.
 Import ListNotations.
 Open Scope N_scope.
 
@@ -315,3 +316,79 @@ Theorem text_derivable_dict :
       dict_reader_text win mac expert std valid name_text glyph_name sh s bis c = writer_text s c.
 Proof. exact text_derivable_dict_lemma. Qed.
 Print Assumptions text_derivable_dict.
+
+(* ------------------------------------------------------------------------------------------
+   Width round trips over arbitrary maps and over encoder states. *)
+
+(* composite fonts: for EVERY finite CID -> width map (entries in any order, CIDs <= 65535) and
+   EVERY value of /DW, the /W array built from the sorted keys reads back with the width of every
+   CID in the map and /DW for every other CID *)
+Theorem widths_rt :
+  forall (m : list (N * width)) (dw : width) (c : N),
+    NoDup (map fst m) -> Forall (fun p => fst p <= 65535) m ->
+    read_cid_width (w_of_map m) dw c = Some (match assoc_w c m with Some w => w | None => dw end).
+Proof. exact widths_rt_lemma. Qed.
+Print Assumptions widths_rt.
+
+Example widths_rt_hyp :
+  let m := [(7, 250%Z); (2, 500%Z); (1, 500%Z); (3, 500%Z); (8, 250%Z); (4, 600%Z)] in
+  NoDup (map fst m) /\ Forall (fun p => fst p <= 65535) m /\
+  w_of_map m = [WRange 1 3 500%Z; WList 4 [600%Z]; WRange 7 8 250%Z] /\
+  read_cid_width (w_of_map m) 1000%Z 8 = Some 250%Z /\ read_cid_width (w_of_map m) 1000%Z 5 = Some 1000%Z.
+Proof.
+  cbn zeta. split; [repeat constructor; cbn; intuition discriminate|].
+  split; [repeat constructor; cbn; discriminate|]. vm_compute. auto.
+Qed.
+
+(* simple fonts: for every reachable encoder state and EVERY value of /MissingWidth (in particular
+   DefaultWidth()), /FirstChar /Widths + /MissingWidth read back with the width recorded for every used code *)
+Theorem simple_widths_rt :
+  forall nw ops dw c i, let s := final nw ops in
+    find_info c (s_info s) = Some i ->
+    let '(first, last) := simple_first_last (dict_width s) (code_used s) dw in
+    read_simple first (simple_widths (dict_width s) (code_used s) dw) dw c = ci_w i.
+Proof. exact simple_widths_rt_lemma. Qed.
+Print Assumptions simple_widths_rt.
+
+(* vertical metrics: the /W2 array of a strictly increasing CID list decodes to exactly the entries
+   it was built from (the encoder's loop terminates within length + 1 rounds); /DW2 round trips *)
+Theorem w2_compress :
+  (forall l, strictly_increasing (map fst l) -> Forall (fun p => fst p <= 65535) l ->
+     exists its, encode_v l = Some its /\ decode_v its = Some l) /\
+  (forall m, decode_dw2 (encode_dw2 m) = m).
+Proof. exact (conj w2_compress_lemma dw2_roundtrip_lemma). Qed.
+Print Assumptions w2_compress.
+
+Example w2_compress_hyp :
+  let v := (-1000, 500, 880)%Z in let v' := (-900, 400, 800)%Z in
+  let l := [(1, v); (2, v'); (3, v); (4, v); (5, v); (9, v')] in
+  strictly_increasing (map fst l) /\
+  encode_v l = Some [VList 1 [v; v']; VRange 3 5 v; VList 9 [v']] /\
+  encode_dw2 (880, -1000)%Z = None /\ decode_dw2 (Some [700%Z]) = (700, -1000)%Z.
+Proof. cbn zeta. split; [cbn; repeat split; discriminate|]. vm_compute. auto. Qed.
+
+(* Type 3 fonts: writer-side and reader-side scaling of a glyph-space width by FontMatrix[0] agree,
+   and differ from the laid-out advance by at most half a glyph-space unit times |FontMatrix[0]| *)
+Theorem type3_width_scaling :
+  (forall w m : Q, (t3_writer_width w m == t3_reader_width w m)%Q) /\
+  (forall raw w m : Q, (Qabs (w - raw) <= 1 # 2)%Q ->
+     (Qabs (t3_reader_width w m - t3_geometry_width raw m) <= (1 # 2) * Qabs m)%Q).
+Proof. exact (conj t3_scaling_lemma t3_precision_lemma). Qed.
+Print Assumptions type3_width_scaling.
+
+Example type3_width_scaling_hyp :
+  (Qabs (1139 - (2277 # 2)) <= 1 # 2)%Q /\ (t3_reader_width 1139 (1 # 2048) == 1139 # 2048)%Q.
+Proof. split; [vm_compute; discriminate | vm_compute; reflexivity]. Qed.
+
+(* text values of a ToUnicode CMap: utf16.Encode then utf16.Decode is the identity on every
+   sequence of Unicode scalar values (multi-rune text, characters outside the BMP) *)
+Theorem utf16_roundtrip :
+  forall rs, Forall (fun r => valid_scalar r = true) rs -> decode16 (encode16 rs) = rs.
+Proof. exact utf16_roundtrip_lemma. Qed.
+Print Assumptions utf16_roundtrip.
+
+Example utf16_roundtrip_hyp :
+  Forall (fun r => valid_scalar r = true) [102%N; 128512%N; 769%N] /\
+  encode16 [102%N; 128512%N; 769%N] = [102%N; 55357%N; 56832%N; 769%N] /\
+  decode16 [55357%N; 65%N] = [65533%N; 65%N].
+Proof. split; [repeat constructor|]. vm_compute. auto. Qed.
